@@ -237,6 +237,7 @@ def run_sequences(ctx, nseq):
 def run(ctx):
     thorough = ctx.tier == 'thorough'
     ctx.obligations_stage(PROPS, extra_targets=['C18/Examples.vo', 'C18/Examples2.vo', 'C18/ZInst.vo'])
+    ctx.obligations_stage('C18/Props3.v', extra_targets=['C18/Examples3.vo'])
     ctx.cov['input_distribution'] = {}
     ctx.assumptions += [
         'model: hand transcription of pyiga.tensor (_normalize_indices, CanonicalTensor, TuckerTensor, join_tucker_bases, '
